@@ -1,1 +1,95 @@
-fn main(){ dlv::x(); }
+use dlv::engine::{run_property, Tier};
+use std::path::PathBuf;
+
+fn verif_dir() -> PathBuf {
+    if let Ok(d) = std::env::var("VERIF_DIR") {
+        return PathBuf::from(d);
+    }
+    PathBuf::from("/verif")
+}
+
+fn main() {
+    let args: Vec<String> = std::env::args().collect();
+    let usage = || -> ! {
+        eprintln!("usage: dlv run <ID> <quick|thorough> | dlv replay <file> | dlv list");
+        std::process::exit(2)
+    };
+    if args.len() < 2 {
+        usage();
+    }
+    // run everything on a big-stack thread: darklua / full_moon recurse deeply
+    let child = std::thread::Builder::new()
+        .stack_size(512 << 20)
+        .spawn(move || -> i32 {
+            match args[1].as_str() {
+                "list" => {
+                    for p in dlv::props::all() {
+                        println!("{}", p.id);
+                    }
+                    0
+                }
+                "run" => {
+                    if args.len() < 4 {
+                        usage();
+                    }
+                    let tier = match args[3].as_str() {
+                        "quick" => Tier::Quick,
+                        "thorough" => Tier::Thorough,
+                        _ => usage(),
+                    };
+                    let seed: u64 = std::env::var("VERIF_SEED").ok().and_then(|s| s.trim().parse::<i128>().ok()).map(|v| v as u64).unwrap_or(1);
+                    let Some(def) = dlv::props::all().into_iter().find(|p| p.id == args[2]) else {
+                        eprintln!("unknown property {}", args[2]);
+                        return 2;
+                    };
+                    run_property(&def, tier, seed, verif_dir())
+                }
+                "replay" => {
+                    if args.len() < 3 {
+                        usage();
+                    }
+                    dlv::engine::install_panic_hook();
+                    let text = match std::fs::read_to_string(&args[2]) {
+                        Ok(t) => t,
+                        Err(e) => {
+                            eprintln!("cannot read {}: {}", args[2], e);
+                            return 2;
+                        }
+                    };
+                    let v: serde_json::Value = match serde_json::from_str(&text) {
+                        Ok(v) => v,
+                        Err(e) => {
+                            eprintln!("bad replay file: {}", e);
+                            return 2;
+                        }
+                    };
+                    let id = v.get("property").and_then(|x| x.as_str()).unwrap_or("").to_string();
+                    let Some(def) = dlv::props::all().into_iter().find(|p| p.id == id) else {
+                        eprintln!("replay file names unknown property {:?}", id);
+                        return 2;
+                    };
+                    match dlv::engine::catch(|| (def.replay)(&v)) {
+                        Ok(Ok(())) => {
+                            println!("OK property={} holds on {}", id, args[2]);
+                            0
+                        }
+                        Ok(Err(msg)) => {
+                            println!("VIOLATION property={} replay={}", id, args[2]);
+                            for l in msg.lines() {
+                                println!("  {}", l);
+                            }
+                            1
+                        }
+                        Err(p) => {
+                            println!("INCONCLUSIVE harness panic during replay: {}", p);
+                            2
+                        }
+                    }
+                }
+                _ => usage(),
+            }
+        })
+        .expect("spawn main thread");
+    let code = child.join().unwrap_or(2);
+    std::process::exit(code);
+}
